@@ -125,10 +125,11 @@ UnicastOf(ip) == {s \in Ids : st.socks[s].pool = "U" /\ st.socks[s].ip = ip}
 (***************************************************************************)
 (* ListenQUIC / ListenQUICAndAssociate(assoc, addr, tlsConf{proto})        *)
 (***************************************************************************)
-ListenErr(a, p, as, f, e, nst) ==
+\* (sock: the socket whose transport the failed call had obtained and gave back, 0 if none)
+ListenErr(a, p, as, f, e, s, nst) ==
   /\ st' = nst
   /\ op' = [name |-> "listen", ip |-> a.ip, port |-> a.port, proto |-> p, assoc |-> as, fault |-> f, ok |-> FALSE,
-            err |-> e, ln |-> 0, sock |-> 0]
+            err |-> e, ln |-> 0, sock |-> s]
 
 ListenOk(a, p, as, f, s, socks2, routes2, n2) ==
   LET l == st.nl + 1 IN
@@ -142,11 +143,11 @@ ListenOk(a, p, as, f, s, socks2, routes2, n2) ==
 ListenOn(a, p, as, f, s, socks2, routes2, n2) ==
   IF socks2[s].bad
   THEN \* quic Listen fails: the reference is given back (Q4)
-       ListenErr(a, p, as, f, "listenfail",
+       ListenErr(a, p, as, f, "listenfail", s,
                  [st EXCEPT !.n = n2, !.socks = [socks2 EXCEPT ![s] = Dec(socks2[s], 0)], !.routes = routes2, !.nf = Nf(f)])
   ELSE IF f = "noalpn"
   THEN \* quicListener.Add refuses; the fresh shared listener is closed again, its accept loop gives the reference back
-       ListenErr(a, p, as, f, "noalpn",
+       ListenErr(a, p, as, f, "noalpn", s,
                  [st EXCEPT !.n = n2, !.socks = [socks2 EXCEPT ![s] = Dec(socks2[s], 0)], !.routes = routes2, !.nf = Nf(f)])
   ELSE ListenOk(a, p, as, f, s, socks2, routes2, n2)
 
@@ -157,8 +158,8 @@ Listen(a, p, as, f) ==
      THEN \* the address already has a shared QUIC listener
           /\ f \in {"ok", "noalpn"}
           /\ LET s == CHOOSE x \in hit : TRUE IN
-             IF f = "noalpn" THEN ListenErr(a, p, as, f, "noalpn", [st EXCEPT !.nf = Nf(f)])
-             ELSE IF st.ql[s].protos[p] # 0 THEN ListenErr(a, p, as, f, "dup", st)
+             IF f = "noalpn" THEN ListenErr(a, p, as, f, "noalpn", 0, [st EXCEPT !.nf = Nf(f)])
+             ELSE IF st.ql[s].protos[p] # 0 THEN ListenErr(a, p, as, f, "dup", 0, st)
              ELSE ListenOk(a, p, as, f, s, st.socks, st.routes, st.n)
      ELSE
        LET reuseD == IF Reuse /\ a.ip = AnyIP
@@ -170,9 +171,9 @@ Listen(a, p, as, f) ==
                /\ \E s \in reuseD :
                     ListenOn(a, p, as, f, s, [st.socks EXCEPT ![s] = [Inc(st.socks[s]) EXCEPT !.pool = "L"]],
                              st.routes, st.n)
-          ELSE IF f = "oserr" THEN ListenErr(a, p, as, f, "oserr", [st EXCEPT !.nf = Nf(f)])
+          ELSE IF f = "oserr" THEN ListenErr(a, p, as, f, "oserr", 0, [st EXCEPT !.nf = Nf(f)])
           ELSE IF Conflict(a) THEN /\ f = "ok"
-                                   /\ ListenErr(a, p, as, f, "inuse", st)
+                                   /\ ListenErr(a, p, as, f, "inuse", 0, st)
           ELSE /\ st.n < MaxSock
                /\ f # "selerr" \/ (Reuse /\ a.ip # AnyIP /\ UnicastOf(a.ip) = {})
                /\ LET s == st.n + 1
